@@ -2,9 +2,10 @@ import MindsVerif.Model.Py
 /-!
 # M9 (literal part) — the SQLAlchemy literal renderer and target-engine lexical models
 
-* `renderLiteral` transcribes `LiteralCompiler.render_literal_value` for `str` values in
-  `render/sqlalchemy_render.py` (both the DML and the DDL compiler):
-  `"'{}'".format(str(value).replace("'", "''"))` — the same text for every SQLAlchemy dialect.
+* `renderLiteral mysql v` transcribes `quote_literal(value, dialect)` (called by
+  `LiteralCompiler.render_literal_value` of both the DML and the DDL compiler, /repo 8d4e738) in
+  `render/sqlalchemy_render.py`: `value.replace("'", "''")`, then for `dialect.name == 'mysql'` additionally
+  `.replace('\\', '\\\\')`, wrapped in quotes.  `mysql = false` is the text for every other dialect.
 * `stdLex` — string literal of standard SQL (PostgreSQL with `standard_conforming_strings`, SQLite,
   MSSQL, Oracle): opening `'`, then `''` ↦ `'`, any other character itself, closing `'` (a quote not
   followed by a quote).  No backslash escapes.  Validated against `sqlite3` by the check.
@@ -15,7 +16,11 @@ import MindsVerif.Model.Py
 namespace MindsVerif.LitRender
 open MindsVerif.Py
 
-def renderLiteral (v : List Char) : List Char := '\'' :: replace ['\''] ['\'', '\''] v ++ ['\'']
+def renderBody (mysql : Bool) (v : List Char) : List Char :=
+  let d := replace ['\''] ['\'', '\''] v
+  if mysql then replace ['\\'] ['\\', '\\'] d else d
+
+def renderLiteral (mysql : Bool) (v : List Char) : List Char := '\'' :: renderBody mysql v ++ ['\'']
 
 /-- behind the opening quote: `(value, rest)`; `none` = unterminated -/
 def stdBody : List Char → Option (List Char × List Char)
